@@ -72,6 +72,9 @@ def check_sentinel_by_identity(ctx, rule: str) -> None:
         raise AnalysisError(f"only {n} functions receiving the emit sentinel from filter_outputs found")
 
 
+from .common import exposes_selection_else_all as _exposes_selection_else_all  # noqa: E402
+
+
 def run(ctx) -> None:
     db, rep = ctx.db, ctx.rep
     rep.rule("C16.R1", "scheduling is restricted to the active set computed from the graph's current entry points", floor=6)
@@ -350,7 +353,10 @@ def run(ctx) -> None:
     gn = db.cls("nodes.graph_node.GraphNode")
     init = gn.methods["__init__"]
     outs = [n for n in walk_local(init.node) if isinstance(n, ast.Assign) and any(src(t) == "self.outputs" for t in n.targets)]
-    ok = len(outs) == 1 and isinstance(outs[0].value, ast.IfExp) and src(outs[0].value.test) == "graph.selected is not None" and src(outs[0].value.body) == "graph.selected" and src(outs[0].value.orelse) == "graph.outputs"
+    ok = len(outs) == 1 and _exposes_selection_else_all(db, init, outs[0].value)
+    from .c17 import check_wrapper_offers_no_inner_signals
+
+    check_wrapper_offers_no_inner_signals(ctx, "C16.R6")
     rep.add("C16.R6", f"{gn.qname}:exposed-outputs", ok, init.loc(), "a nested graph exposes its selection if set, else all outputs" if ok else "a nested graph does not expose 'selected else all outputs'")
     rs = db.func("runners._shared.helpers._resolve_select")
     from .common import returns_under
